@@ -4,7 +4,6 @@ use similari::trackers::sort::voting::SortVoting;
 use similari::utils::bbox::Universal2DBox;
 use similari::voting::Voting;
 use std::collections::{HashMap, HashSet};
-use vh::posref::{judge_call, Judgement};
 use vh::posref::{check_positional, Verdict};
 use vh::rng::Hasher;
 use vh::trk::*;
@@ -209,55 +208,10 @@ fn layer_b(cli: &Cli, rep: &mut Report) {
         }
         drop(trk);
         // BatchSort, second pass: the same calls submitted back to back as one-scene batches whose results are read by
-        // consumer threads (the pipelined use the batch API allows). A correct tracker associates call k against exactly
-        // the state the sequential run had before call k, so each pipelined outcome - ids translated through the bijection
-        // built so far - is judged against that snapshot by the same gate / optimal-assignment reference.
+        // consumer threads (the pipelined use the batch API allows); see posref::pipelined_pass
         if kind == Kind::BatchSort && seq_ok && !cli.small && seq_log.len() >= 2 {
-            let mut t2 = AnyTracker::new(&cfg);
-            // two thirds of the pipelined passes: every store write of the voting threads is stalled for 0.1..1.5 ms at
-            // the guarded schedule point, so that the next batch is submitted while the previous one is still being applied
-            if let Some(c) = &ctl {
-                if rng.chance(0.67) {
-                    c.set_mode(vh::sched::Mode::Stall { site: "vote.store_write", us: 100 + rng.below(1400), seed: rng.u64() });
-                    rep.count("layerB_pipelined_passes_with_stalled_store_writes");
-                } else {
-                    c.set_mode(vh::sched::Mode::Record);
-                }
-            }
-            let rxs: Vec<_> = seq_log.iter().map(|(scene, dets, _, _, _)| t2.submit_with_consumer(&[(*scene, dets.clone())])).collect();
-            let mut to_seq: HashMap<u64, u64> = HashMap::new();
-            for (ci, (rx, (scene, dets, srecs, pre, epoch))) in rxs.into_iter().zip(seq_log.iter()).enumerate() {
-                let precs = match rx.recv() {
-                    Ok(mut v) if v.len() == 1 => v.pop().unwrap().1,
-                    _ => {
-                        rep.violation("C02/tracker/BatchSort/pipelined/result-never-delivered", idx, json!({"cfg": cfg.js(), "call": ci}));
-                        break;
-                    }
-                };
-                rep.count("layerB_pipelined_calls_compared");
-                let translated: Vec<Rec> = precs.iter().map(|r| {
-                    let mut t = r.clone();
-                    t.id = to_seq.get(&r.id).cloned().unwrap_or((1u64 << 62) | r.id);
-                    t
-                }).collect();
-                // same association as the judged sequential call?
-                let same = translated.len() == srecs.len() && translated.iter().zip(srecs.iter()).all(|(p, q)| p.id == q.id || (p.id >> 62 == 1 && !pre.iter().any(|t| t.id == q.id)));
-                if same {
-                    for (p, q) in precs.iter().zip(srecs.iter()) {
-                        to_seq.insert(p.id, q.id);
-                    }
-                    continue;
-                }
-                match judge_call(&cfg, *scene, *epoch, dets, &translated, pre) {
-                    Judgement::Invalid(sig, d) => rep.violation(&format!("C02/tracker/BatchSort/pipelined/{}", sig), idx, json!({"cfg": cfg.js(), "preset": w.preset, "call": ci, "scene": scene, "epoch": epoch, "detail": d,
-                        "sequential_records[id]": srecs.iter().map(|r| r.id).collect::<Vec<_>>(), "pipelined_records[id translated]": translated.iter().map(|r| r.id).collect::<Vec<_>>()})),
-                    _ => rep.count("layerB_pipelined_divergences_valid_or_undecidable"),
-                }
-                break;
-            }
-            drop(t2);
-            if let Some(c) = &ctl {
-                let _ = c.finish();
+            if let Some((sig, d)) = vh::posref::pipelined_pass(&cfg, &seq_log, ctl.as_deref(), &mut rng, rep, "layerB_") {
+                rep.violation(&format!("C02/tracker/BatchSort/pipelined/{}", sig), idx, json!({"cfg": cfg.js(), "preset": w.preset, "detail": d}));
             }
         }
     }
